@@ -107,6 +107,7 @@ func run(tier string) int {
 	kindsSeen := map[string]bool{}
 	fkinds := map[string]bool{}
 	samples := []any{}
+	var allViols []engine.Violation
 	for _, st := range all {
 		if st.HarnessErr != "" {
 			fmt.Fprintf(os.Stderr, "harness error: %s\n", st.HarnessErr)
@@ -137,10 +138,27 @@ func run(tier string) int {
 		if st.Sample != nil && st.Pods >= 2 && len(samples) < 6 {
 			samples = append(samples, st.Sample)
 		}
-		for _, v := range st.Violations {
-			// the replay payload went through JSON; keep it as is
-			rep.Add(v)
+		allViols = append(allViols, st.Violations...)
+	}
+	// report, per key, the violation with the shortest history (ties: scenario name)
+	histLen := func(v engine.Violation) (int, string) {
+		if m, ok := v.Replay.(map[string]any); ok {
+			h, _ := m["history"].([]any)
+			s, _ := m["scenario"].(string)
+			return len(h), s
 		}
+		return 0, ""
+	}
+	sort.SliceStable(allViols, func(i, j int) bool {
+		li, si := histLen(allViols[i])
+		lj, sj := histLen(allViols[j])
+		if li != lj {
+			return li < lj
+		}
+		return si < sj
+	})
+	for _, v := range allViols {
+		rep.Add(v)
 	}
 	if len(samples) == 0 {
 		for _, st := range all {
@@ -191,6 +209,21 @@ func run(tier string) int {
 	}
 	if kh := rep.KnownHits(); len(kh) > 0 {
 		cov["known_finding_hits"] = kh
+	}
+	vkeys := map[string]bool{}
+	for _, st := range all {
+		for _, v := range st.Violations {
+			vkeys[v.Key] = true
+		}
+	}
+	vkl := []string{}
+	for k := range vkeys {
+		vkl = append(vkl, k)
+	}
+	sort.Strings(vkl)
+	cov["violation_keys"] = vkl
+	for _, k := range vkl {
+		fmt.Printf("violation-key: %s\n", k)
 	}
 	code := rep.Finish()
 	ev := &engine.Evidence{PropertyID: "C18", Tier: tier, Seed: engine.SeedFromEnv(), Level: "model_checking", Coverage: cov,
@@ -295,10 +328,12 @@ func replay(path string) int {
 			return 2
 		}
 		if f, d := diffFinal(a, bf); f != "" {
-			k := fmt.Sprintf("C18/order-dependent kind=%s field=%s", sc.Kind, f)
-			fmt.Printf("  oracle: %s: %s\n", k, d)
-			if k == v.Key {
-				found = true
+			for _, law := range []string{"order-dependent", "repeat-dependent"} {
+				k := fmt.Sprintf("C18/%s kind=%s field=%s", law, sc.Kind, f)
+				if k == v.Key {
+					fmt.Printf("  oracle: %s: %s\n", k, d)
+					found = true
+				}
 			}
 		}
 	}
